@@ -4,7 +4,9 @@
 // the current pool size, numeric parameters are mapped from integers by fixed
 // formulas, so any sub-list of a program is again a valid program (shrinking).
 #pragma once
+#include <array>
 #include <functional>
+#include <map>
 #include <sstream>
 #include <string>
 #include <vector>
@@ -163,6 +165,48 @@ inline std::function<double(vec3)> sdf_kind(int64_t kind, int64_t k) {
   }
 }
 
+// Meshes with duplicated edges and opposed triangles, imported through
+// Manifold(MeshGL64): kind 0 = row of M unit cells sharing corner vertices, the
+// wall between neighbouring boxes of K cells present twice with opposite
+// orientation; kind 1 = staircase of M boxes touching along an edge with merged
+// vertices (every shared edge used by four triangles).
+inline MeshGL64 cell_mesh(int M, int K, int kind) {
+  MeshGL64 g;
+  g.numProp = 3;
+  std::map<std::array<int, 3>, uint64_t> index;
+  auto V = [&](int i, int j, int k) {
+    std::array<int, 3> key{i, j, k};
+    auto it = index.find(key);
+    if (it != index.end()) return it->second;
+    uint64_t id = g.vertProperties.size() / 3;
+    g.vertProperties.push_back(i);
+    g.vertProperties.push_back(j);
+    g.vertProperties.push_back(k);
+    index[key] = id;
+    return id;
+  };
+  auto quad = [&](uint64_t a, uint64_t b, uint64_t c, uint64_t d) {
+    for (uint64_t v : {a, b, c, a, c, d}) g.triVerts.push_back(v);
+  };
+  auto box = [&](int x0, int y0, bool left, bool right) {
+    const int x1 = x0 + 1, y1 = y0 + 1;
+    if (right) quad(V(x1, y0, 0), V(x1, y1, 0), V(x1, y1, 1), V(x1, y0, 1));
+    if (left) quad(V(x0, y0, 0), V(x0, y0, 1), V(x0, y1, 1), V(x0, y1, 0));
+    quad(V(x0, y1, 0), V(x0, y1, 1), V(x1, y1, 1), V(x1, y1, 0));
+    quad(V(x0, y0, 0), V(x1, y0, 0), V(x1, y0, 1), V(x0, y0, 1));
+    quad(V(x0, y0, 1), V(x1, y0, 1), V(x1, y1, 1), V(x0, y1, 1));
+    quad(V(x0, y0, 0), V(x0, y1, 0), V(x1, y1, 0), V(x1, y0, 0));
+  };
+  if (K < 1) K = 1;
+  for (int c = 0; c < M; ++c) {
+    if (kind % 2 == 0)
+      box(c, 0, c % K == 0, (c + 1) % K == 0 || c + 1 == M);
+    else
+      box(c, c, true, true);
+  }
+  return g;
+}
+
 inline void set_props(double* n, vec3 p, const double* old, int num, int kind, int numOld) {
   for (int i = 0; i < num; i++) {
     switch ((kind + i) % 4) {
@@ -215,6 +259,9 @@ inline bool exec(Env& e, const Op& op) {
     if (needX())
       e.pushM(Manifold::Revolve(e.x(A(0)).Translate(vec2(U(A(3), 0, 1.5), 0)).ToPolygons(), 3 + (int)((A(1) % 40 + 40) % 40),
                                 A(2) % 3 == 0 ? 360.0 : U(A(2), 30, 360)));
+  } else if (n == "cellrow") {
+    int M = 1 + (int)(((A(0) % 6000) + 6000) % 6000), K = 1 + (int)(((A(1) % 32) + 32) % 32);
+    e.pushM(Manifold(cell_mesh(M, K, (int)(A(2) % 2))));
   } else if (n == "hullpts") {
     Rng r((uint64_t)A(1) * 31 + 7);
     std::vector<vec3> pts;
